@@ -247,7 +247,12 @@ def check(ctx):
         if w:
             ctx.violation(w, c, footprint(c, w))
     extra = extra_cases(ctx)
-    ctx.tie("C16/extras", extra, line, impl, canon_cells_list, canon_cells_list)
+    # property level: per-character cells of every line for columns >= 1 (str and FmtStr arguments alike)
+    ctx.tie("C16/extras", [c for c in extra if c["columns"] >= 1], line, impl, canon_cells_list, canon_cells_list)
+    # representation level: columns < 1 is outside the quantifier (today a ZeroDivisionError; which exception, if any, is
+    # not the property's business)
+    ctx.tie("C16/outside-quantifier", [c for c in extra if c["columns"] < 1], line, impl, canon_cells_list, canon_cells_list,
+            level="representation")
     for c in extra:
         w = oracle(c)
         ctx.count(c, nontrivial=nontrivial(c), tag="extra-" + c["op"])
